@@ -1883,7 +1883,8 @@ func (s *Store) Backup(ctx context.Context, br *proto.BackupRequest, dst io.Writ
 
 		// Stream the DELETE mode database to the destination
 		if br.Compress {
-			dstGz, err := gzip.NewWriterLevel(dst, gzip.BestSpeed)
+			var dstGz *gzip.Writer
+			dstGz, err = gzip.NewWriterLevel(dst, gzip.BestSpeed)
 			if err != nil {
 				return err
 			}
